@@ -158,7 +158,9 @@ def handle_violations(pool, prop, part, agg, known, report):
             try:
                 tester = make_tester(pool, cfg, part, fp, prop_id)
                 if tester([program])[0]:
-                    minimised = ddmin.minimise_program(program, tester, get_simplifiers(part.machine))
+                    # minimisation is bounded in wall-clock time (a candidate under memcheck can take seconds): what has been
+                    # reached when the budget is used up is reported
+                    minimised = ddmin.minimise_program(program, tester, get_simplifiers(part.machine), deadline=time.monotonic() + 40)
                 else:
                     report['notes'].append('violation %s did not reproduce from its explicit program' % fp)
             except Exception:
